@@ -90,6 +90,7 @@ func (fc *FnCtx) doCall(st *State, c *ssa.CallCommon, in ssa.Instruction, site s
 		if _, isPtr := a.Type().Underlying().(*types.Pointer); isPtr {
 			fc.havocPointee(st, a, args[i])
 		}
+		fc.havocSliceArg(st, a, args[i])
 		// a pointer handed over inside an interface value (Decode(&v), Unmarshal(.., &v)): the
 		// callee may write through it just the same
 		if types.IsInterface(a.Type()) && !args[i].T.IsZero() {
@@ -224,6 +225,7 @@ func (fc *FnCtx) invoke(st *State, c *ssa.CallCommon, in ssa.Instruction, site s
 		if _, isPtr := a.Type().Underlying().(*types.Pointer); isPtr {
 			fc.havocPointee(st, a, av)
 		}
+		fc.havocSliceArg(st, a, av)
 		if types.IsInterface(a.Type()) && !av.T.IsZero() {
 			if bi, ok := fc.top.boxed[av.T.S]; ok {
 				if _, isPtr := bi.typ.Underlying().(*types.Pointer); isPtr {
